@@ -6,5 +6,7 @@ CONSTANTS
   Depth = 2
   CatCut = 1
   WordCut = 1
+  AfixCut = 1
+  SpellOf <- MCSpellOf
 INVARIANT EveryTreeOfTheBankIsLicensed
 CHECK_DEADLOCK FALSE
